@@ -141,7 +141,7 @@ class Interp:
                 return cls.name in getattr(v, "isa", ())
             return False
         if isinstance(cls, Builtin) and getattr(cls, "pytypes", None) is not None:
-            return self._is_pytype(v, cls.pytypes)
+            return self._is_pytype(self.unbox(v) if isinstance(v, Obj) else v, cls.pytypes)
         raise Unsupported(f"isinstance against {cls!r}")
 
     def _is_pytype(self, v, kinds):
@@ -1180,7 +1180,8 @@ class Interp:
     # ---- loops
     def loop_spec(self, node=None):
         if not self.call_stack:
-            return None, None
+            spec = self.hooks.get("block_loop")
+            return spec, "block/loop"
         clo = self.call_stack[-1]
         # loop ordinal = position of the loop statement among the loops of the function, in source order
         ordinal = loop_ordinal(clo.node, node) if node is not None else self.loop_counters[-1]
